@@ -93,6 +93,62 @@ fn probe_main() {
     let _ = ContentMode::Sequence;
 }
 
+/// required attributes that are not valid in every version (by mask or by the masks of their enum items)
+fn probe_required() {
+    let (order, parent) = type_chains();
+    let all: u32 = 0x1fffff;
+    let mut n = 0;
+    for t in &order {
+        for (an, spec, required) in t.attribute_spec_iter() {
+            if !required {
+                continue;
+            }
+            let Some(a) = t.find_attribute_spec(an) else { continue };
+            let partial_items = match spec {
+                CharacterDataSpec::Enum { items } => items.iter().filter(|(_, m)| m & all != all).count(),
+                _ => 0,
+            };
+            if a.version & all != all || partial_items > 0 {
+                n += 1;
+                if n < 60 {
+                    println!(
+                        "REQ {} attr={} mask={:x} partial_enum_items={} chain={}",
+                        n,
+                        an,
+                        a.version,
+                        partial_items,
+                        chain_of(*t, &parent).iter().map(|x| x.to_string()).collect::<Vec<_>>().join("/")
+                    );
+                }
+            }
+        }
+    }
+    println!("STAT required_partial={}", n);
+}
+
+/// a few fixed situations run directly on the library
+fn probe_cases() {
+    // (c) identifiable element whose SHORT-NAME has no text
+    let text = r#"<?xml version="1.0" encoding="utf-8"?>
+<AUTOSAR xsi:schemaLocation="http://autosar.org/schema/r4.0 AUTOSAR_00050.xsd" xmlns="http://autosar.org/schema/r4.0" xmlns:xsi="http://www.w3.org/2001/XMLSchema-instance"><AR-PACKAGES><AR-PACKAGE><SHORT-NAME>P</SHORT-NAME><ELEMENTS><SYSTEM><SHORT-NAME>S</SHORT-NAME><FIBEX-ELEMENTS/></SYSTEM></ELEMENTS><AR-PACKAGES><AR-PACKAGE><SHORT-NAME/></AR-PACKAGE></AR-PACKAGES></AR-PACKAGE></AR-PACKAGES></AUTOSAR>"#;
+    let m = AutosarModel::new();
+    match m.load_buffer(text.as_bytes(), "t.arxml", false) {
+        Ok((_, ws)) => {
+            println!("CASE-C loaded warnings={}", ws.len());
+            let p = m.get_element_by_path("/P").unwrap();
+            println!("CASE-C before: /P -> {}", m.get_element_by_path("/P").map(|e| e.xml_path()).unwrap_or_default());
+            // copy the whole package P (it contains the nameless package) next to itself
+            let pk = p.parent().unwrap().unwrap();
+            let r = pk.create_copied_sub_element(&p);
+            println!("CASE-C copy of /P: {:?}", r.as_ref().map(|e| e.path()).map_err(|e| err_name(e)));
+            for (pth, w) in m.identifiable_elements() {
+                println!("CASE-C index {} -> {}", pth, w.upgrade().map(|e| e.xml_path()).unwrap_or_default());
+            }
+        }
+        Err(e) => println!("CASE-C load error {}", err_name(&e)),
+    }
+}
+
 
 // ------------------------------------------------------------------------------------------------ generator shapes
 fn ok_h(r: &str) -> Option<usize> {
@@ -201,6 +257,23 @@ pub fn scenario(g: &mut Gen, k: u64) {
     }
     if g.ex.files.is_empty() {
         return;
+    }
+    if g.enable.iter().any(|e| e == "load") && g.rng.below(5) == 0 {
+        // identifiable elements without item name can only come from a file: <SHORT-NAME/>
+        let strict = g.rng.below(2) == 0;
+        let r = g.push(Op::Load(0, NAMELESS_DOC.as_bytes().to_vec(), b"nameless.arxml".to_vec(), strict));
+        if r.starts_with("R OK") {
+            if let Some(p) = g.ex.models[0].get_element_by_path("/P").and_then(|e| g.ex.hidx.get(&e).copied()) {
+                if let Some(pk) = g.ex.handles[p].parent().ok().flatten().and_then(|e| g.ex.hidx.get(&e).copied()) {
+                    g.push(Op::Copy(pk, p));
+                    // the nameless package itself
+                    let inner = g.pick_where(|e| e.is_identifiable() && e.item_name().is_none());
+                    if let Some(i) = inner {
+                        g.push(Op::Copy(pk, i));
+                    }
+                }
+            }
+        }
     }
     let shape = (k / 2) % 8;
     match shape {
@@ -813,7 +886,8 @@ fn oracle_script(names: &Names, script: usize, probes: Vec<String>, ops: &[Op], 
                                 Ok(p) => {
                                     if model.get_element_by_path(&p).as_ref() != Some(&e) {
                                         let nm = e.item_name();
-                                        fd.fail(script, opi, "NOT-FINDABLE", format!("op=[{}] path={} name={:?}", op.line(), p, nm));
+                                        let nameless = copy.elements_dfs().any(|(_, x)| x.is_identifiable() && x.item_name().is_none());
+                                        fd.fail(script, opi, "NOT-FINDABLE", format!("classes={} op=[{}] path={} name={:?}", if nameless { "nameless" } else { "-" }, op.line(), p, nm));
                                     }
                                 }
                                 Err(er) => fd.fail(script, opi, "NOT-FINDABLE", format!("op=[{}] path() fails: {}", op.line(), err_name(&er))),
@@ -1017,9 +1091,175 @@ pub fn oracle_main(args: &[String]) {
     std::process::exit(0);
 }
 
+// ------------------------------------------------------------------------------------------------ fixed finding scripts
+struct Builder<'a> {
+    ex: Exec<'a>,
+    lines: Vec<String>,
+}
+impl<'a> Builder<'a> {
+    fn push(&mut self, op: Op) -> String {
+        self.lines.push(op.line());
+        self.ex.apply(&op)
+    }
+    fn h(&mut self, op: Op) -> usize {
+        let r = self.push(op);
+        ok_h(&r).unwrap_or_else(|| panic!("finding script: {}", r))
+    }
+}
+
+const NAMELESS_DOC: &str = r#"<?xml version="1.0" encoding="utf-8"?>
+<AUTOSAR xsi:schemaLocation="http://autosar.org/schema/r4.0 AUTOSAR_00050.xsd" xmlns="http://autosar.org/schema/r4.0" xmlns:xsi="http://www.w3.org/2001/XMLSchema-instance"><AR-PACKAGES><AR-PACKAGE><SHORT-NAME>P</SHORT-NAME><ELEMENTS><SYSTEM><SHORT-NAME>S</SHORT-NAME></SYSTEM></ELEMENTS><AR-PACKAGES><AR-PACKAGE><SHORT-NAME/></AR-PACKAGE></AR-PACKAGES></AR-PACKAGE></AR-PACKAGES></AUTOSAR>"#;
+
+/// one script per recorded finding class (handles and name numbers are computed against the current tables)
+fn findings_main(args: &[String]) {
+    let dump = &args[0];
+    let out = &args[1];
+    let names = Names::load(dump);
+    let n = &names;
+    let mut text = String::new();
+    let mut emit = |k: usize, title: &str, b: Builder| {
+        text.push_str(&format!("SCRIPT {}\nPATHS 2f\nOBSERVE serialize\n", k));
+        for l in &b.lines {
+            text.push_str(l);
+            text.push('\n');
+        }
+        println!("FINDING-SCRIPT {} {} ops={}", k, title, b.lines.len());
+    };
+    let start = |ver: u32| -> (Builder, usize) {
+        let mut b = Builder { ex: Exec::new(n), lines: vec![] };
+        b.push(Op::NewModel);
+        b.push(Op::CreateFile(0, b"f0.arxml".to_vec(), ver));
+        let pk = b.h(Op::CreateSub(0, n.elidx("AR-PACKAGES")));
+        let p = b.h(Op::CreateNamed(pk, n.elidx("AR-PACKAGE"), b"p".to_vec()));
+        let el = b.h(Op::CreateSub(p, n.elidx("ELEMENTS")));
+        (b, el)
+    };
+    // 0: fixed 9bc7d2b: root comment and attribute survive duplicate()
+    {
+        let (mut b, _) = start(0x100000);
+        b.push(Op::SetComment(0, Some(b"root comment".to_vec())));
+        let s_attr = names.at.iter().position(|x| x == "S").unwrap() as u16;
+        b.push(Op::SetAttr(0, s_attr, Val::S(b"sig".to_vec())));
+        b.push(Op::Duplicate(0));
+        emit(0, "dup-root-decor(fixed)", b);
+    }
+    // 1: known: the copy keeps the element type it had under the source parent
+    {
+        let (mut b, el) = start(0x100000);
+        let ip = b.h(Op::CreateNamed(el, n.elidx("ETH-IP-PROPS"), b"ip".to_vec()));
+        let v4 = b.h(Op::CreateSub(ip, n.elidx("IPV-4-PROPS")));
+        let v6 = b.h(Op::CreateSub(ip, n.elidx("IPV-6-PROPS")));
+        let fp = b.h(Op::CreateSub(v4, n.elidx("FRAGMENTATION-PROPS")));
+        b.h(Op::CreateSub(fp, n.elidx("TCP-IP-IP-FRAGMENTATION-RX-ENABLED")));
+        b.push(Op::Copy(v6, fp));
+        emit(1, "copy-keeps-source-type", b);
+    }
+    // 2: known: an enum value in element text that does not exist in the target version is copied
+    {
+        let (mut b, el) = start(0x100000);
+        // find an enum-valued element below I-SIGNAL-like kinds whose items are version dependent: search the kinds
+        let mut done = false;
+        'outer: for (ki, kind) in ELEMENT_KINDS.iter().enumerate() {
+            let x = b.h(Op::CreateNamed(el, n.elidx(kind), format!("x{}", ki).into_bytes()));
+            let xe = b.ex.handles[x].clone();
+            for (name, ct, mask, named) in xe.element_type().sub_element_spec_iter() {
+                if mask & 0x100000 == 0 || mask & 0x8000 == 0 || named != 0 {
+                    continue;
+                }
+                if let Some(CharacterDataSpec::Enum { items }) = ct.chardata_spec() {
+                    if let Some((it, _)) = items.iter().find(|(_, m)| m & 0x100000 != 0 && m & 0x8000 == 0) {
+                        let r = b.push(Op::CreateSub(x, name as u16));
+                        if let Some(c) = ok_h(&r) {
+                            b.push(Op::SetCData(c, Val::E(*it as u16)));
+                            b.push(Op::NewModel);
+                            b.push(Op::CreateFile(1, b"g0.arxml".to_vec(), 0x8000));
+                            let root2 = b.ex.models[1].root_element();
+                            let rk = b.ex.hidx[&root2];
+                            let pk2 = b.h(Op::CreateSub(rk, n.elidx("AR-PACKAGES")));
+                            let p2 = b.h(Op::CreateNamed(pk2, n.elidx("AR-PACKAGE"), b"q".to_vec()));
+                            let e2 = b.h(Op::CreateSub(p2, n.elidx("ELEMENTS")));
+                            b.push(Op::Copy(e2, x));
+                            done = true;
+                            break 'outer;
+                        }
+                    }
+                }
+            }
+        }
+        if !done {
+            println!("FINDING-SCRIPT 2 NOT-CONSTRUCTIBLE");
+        }
+        emit(2, "copy-enum-text-unfiltered", b);
+    }
+    // 3: known: duplicate filters by the smallest file version of the model
+    {
+        let (mut b, el) = start(0x100000);
+        b.push(Op::CreateFile(0, b"f1.arxml".to_vec(), 0x1));
+        // an element kind that does not exist in 4.0.1
+        let mut done = false;
+        let ee = b.ex.handles[el].clone();
+        for (name, _, mask, named) in ee.element_type().sub_element_spec_iter() {
+            if mask & 0x100000 != 0 && mask & 0x1 == 0 && named & 0x100000 != 0 {
+                let r = b.push(Op::CreateNamed(el, name as u16, b"x".to_vec()));
+                if ok_h(&r).is_some() {
+                    done = true;
+                    break;
+                }
+            }
+        }
+        if !done {
+            println!("FINDING-SCRIPT 3 NOT-CONSTRUCTIBLE");
+        }
+        b.push(Op::Duplicate(0));
+        emit(3, "dup-version-filter", b);
+    }
+    // 4: known (root cause in C10): an element moved in from another model keeps the file membership of its old
+    //    model; duplicate() translates it by file NAME
+    {
+        let (mut b, el) = start(0x100000);
+        b.push(Op::CreateFile(0, b"f1.arxml".to_vec(), 0x100000));
+        let x = b.h(Op::CreateNamed(el, n.elidx("SYSTEM"), b"x".to_vec()));
+        b.h(Op::CreateNamed(el, n.elidx("SYSTEM"), b"y".to_vec()));
+        b.push(Op::RemoveFromFile(x, 1));
+        if !b.ex.handles[x].file_membership().map(|(l, _)| l).unwrap_or(false) {
+            println!("FINDING-SCRIPT 4 NOT-CONSTRUCTIBLE");
+        }
+        b.push(Op::NewModel);
+        b.push(Op::CreateFile(1, b"f0.arxml".to_vec(), 0x100000));
+        b.push(Op::CreateFile(1, b"f1.arxml".to_vec(), 0x100000));
+        let root2 = b.ex.models[1].root_element();
+        let rk = b.ex.hidx[&root2];
+        let pk2 = b.h(Op::CreateSub(rk, n.elidx("AR-PACKAGES")));
+        let p2 = b.h(Op::CreateNamed(pk2, n.elidx("AR-PACKAGE"), b"q".to_vec()));
+        let e2 = b.h(Op::CreateSub(p2, n.elidx("ELEMENTS")));
+        b.push(Op::Move(e2, x));
+        b.push(Op::Duplicate(1));
+        emit(4, "dup-foreign-membership", b);
+    }
+    // 5: known: an identifiable element without item name inside the copied subtree is registered under the path of
+    //    its parent and hides it
+    {
+        let mut b = Builder { ex: Exec::new(n), lines: vec![] };
+        b.push(Op::NewModel);
+        b.push(Op::Load(0, NAMELESS_DOC.as_bytes().to_vec(), b"t.arxml".to_vec(), false));
+        let p = b.ex.models[0].get_element_by_path("/P").map(|e| b.ex.hidx[&e]);
+        if let Some(p) = p {
+            let pk = b.ex.handles[p].parent().ok().flatten().map(|e| b.ex.hidx[&e]).unwrap();
+            b.push(Op::Copy(pk, p));
+        } else {
+            println!("FINDING-SCRIPT 5 NOT-CONSTRUCTIBLE");
+        }
+        emit(5, "copy-nameless-shortname", b);
+    }
+    std::fs::write(out, text).unwrap();
+}
+
 pub fn main(args: &[String]) {
     match args.get(0).map(|s| s.as_str()) {
+        Some("findings") => findings_main(&args[1..]),
         Some("probe") => probe_main(),
+        Some("probe-required") => probe_required(),
+        Some("probe-cases") => probe_cases(),
         Some("oracle") => oracle_main(&args[1..]),
         _ => {
             eprintln!("usage: avh copy probe|oracle ...");
